@@ -344,24 +344,77 @@ func (fi *fileInstr) run() {
 		})
 	}
 
+	// channel operations: which receives are of the two-value form, which sit in a select
+	recv2 := map[*ast.UnaryExpr]bool{}
+	inSelect := map[ast.Node]bool{}
+	ast.Inspect(fi.file, func(n ast.Node) bool {
+		switch x := n.(type) {
+		case *ast.AssignStmt:
+			if len(x.Lhs) == 2 && len(x.Rhs) == 1 {
+				if u, ok := x.Rhs[0].(*ast.UnaryExpr); ok && u.Op == token.ARROW {
+					recv2[u] = true
+				}
+			}
+		case *ast.ValueSpec:
+			if len(x.Names) == 2 && len(x.Values) == 1 {
+				if u, ok := x.Values[0].(*ast.UnaryExpr); ok && u.Op == token.ARROW {
+					recv2[u] = true
+				}
+			}
+		case *ast.SelectStmt:
+			for _, cl := range x.Body.List {
+				if cc, ok := cl.(*ast.CommClause); ok && cc.Comm != nil {
+					ast.Inspect(cc.Comm, func(m ast.Node) bool {
+						if m != nil {
+							inSelect[m] = true
+						}
+						return true
+					})
+				}
+			}
+		}
+		return true
+	})
+
 	// whole-file expression rewrites (seams)
 	ast.Inspect(fi.file, func(n ast.Node) bool {
 		switch x := n.(type) {
 		case *ast.RangeStmt:
 			fi.rewriteRange(x)
-		case *ast.CallExpr:
-			fi.rewriteCall(x)
 		case *ast.GoStmt:
 			if !fi.rewriteGo(x) {
 				report.UnmodelledSync = append(report.UnmodelledSync, fi.where(x.Pos())+": go statement (function with results, variadic or more than 4 parameters)")
 			}
 		case *ast.SendStmt:
-			report.UnmodelledSync = append(report.UnmodelledSync, fi.where(x.Pos())+": channel send")
+			if inSelect[x] {
+				break
+			}
+			// ch <- v   =>   simrt.Send(ch, v)
+			// (a replacement, not an insertion: the statement's step point is inserted at the same offset and must stay to its left)
+			fi.replace(x.Pos(), x.Chan.End(), "simrt.Send("+fi.text(x.Chan))
+			fi.replace(x.Arrow, x.Arrow+2, ", ")
+			fi.insert(x.End(), ")")
+			report.SyncSites++
 		case *ast.SelectStmt:
 			report.UnmodelledSync = append(report.UnmodelledSync, fi.where(x.Pos())+": select")
 		case *ast.UnaryExpr:
-			if x.Op == token.ARROW {
-				report.UnmodelledSync = append(report.UnmodelledSync, fi.where(x.Pos())+": channel receive")
+			if x.Op == token.ARROW && !inSelect[x] {
+				// <-ch   =>   simrt.Recv(ch)   (simrt.Recv2 for v, ok := <-ch)
+				fn := "simrt.Recv("
+				if recv2[x] {
+					fn = "simrt.Recv2("
+				}
+				fi.replace(x.OpPos, x.OpPos+2, fn)
+				fi.insert(x.X.End(), ")")
+				report.SyncSites++
+			}
+		case *ast.CallExpr:
+			fi.rewriteCall(x)
+			if id, ok := x.Fun.(*ast.Ident); ok && id.Name == "close" && len(x.Args) == 1 {
+				if _, isBuiltin := fi.pkg.TypesInfo.Uses[id].(*types.Builtin); isBuiltin {
+					fi.replace(id.Pos(), id.End(), "simrt.Close")
+					report.SyncSites++
+				}
 			}
 		}
 		return true
